@@ -838,3 +838,8 @@ def detector_ctors(u: Unit):
             u.oblige(p, f"ctor.detectors[{det}].one_container_of_each_kind_on_its_geometry", bool(ok and once), dict(detail, built=str([b[0] for b in rec.get("built", [])])), DETCTOR_REPLAY)
             u.oblige(p, f"ctor.detectors[{det}].no_clock_no_memory", bool(rest), {}, DETCTOR_REPLAY)
         u.cover(f"ctor.detectors.cover[{det}]", ps, lambda p: p.kind == "return")
+
+
+# bounded native audits run in every tier: the ASDF round trip of the four detector types (file encoding is asdf / numpy: outside the contracts)
+AUDITS = {"asdf.roundtrip": lambda w: dict(DATA_REPLAY({}), bound="the detector types and container subsets of the scenario", function="pyxel/detectors/detector.py"),
+          "load_detector.history": lambda w: dict(HISTORY_REPLAY({}), bound="one save, two loads with a reset and a model in between", function="pyxel/models/load_detector.py")}
